@@ -6,7 +6,7 @@
 
 package hclwrite
 
-// verif:unit U7 props=C12,C10
+// verif:unit U7 props=C12
 
 // Ghost state: the set of nodes linked into a list. (Membership cannot be
 // "n.list == ns": nodes.Clear leaves orphans that still point at the list.)
